@@ -34,15 +34,22 @@ impl MsgSender {
     // crossbeam unbounded send: the router holds the receiver for as long as it runs
     #[verifier::external_body]
     pub fn send(&self, msg: RouterMsg, Tracked(p): Tracked<&mut P>) -> (r: Result<(), SendError>)
+        requires old(p).locked, //@@clause:router.proxy/requires.message_sent_under_the_proxy_mutex
         ensures r is Ok, final(p).msgs == old(p).msgs.push(sent_of(msg)), final(p).wakeups == old(p).wakeups, final(p).ack_waited == old(p).ack_waited, final(p).locked == old(p).locked
     { unimplemented!() }
+    // crossbeam Sender::clone: another handle on the same channel
+    #[verifier::external_body]
+    pub fn clone(&self) -> (r: MsgSender) { unimplemented!() }
 }
 impl WakeupSender {
     // IpcSender<()>::send(()): assumption - the router thread is alive (it only exits after shutdown / proxy drop)
     #[verifier::external_body]
     pub fn send(&self, v: (), Tracked(p): Tracked<&mut P>) -> (r: Result<(), BincodeError>)
+        requires old(p).locked, //@@clause:router.proxy/requires.wakeup_sent_under_the_proxy_mutex
         ensures r is Ok, final(p).wakeups == old(p).wakeups + 1, final(p).msgs == old(p).msgs, final(p).ack_waited == old(p).ack_waited, final(p).locked == old(p).locked
     { unimplemented!() }
+    #[verifier::external_body]
+    pub fn clone(&self) -> (r: WakeupSender) { unimplemented!() }
 }
 impl AckReceiver {
     #[verifier::external_body]
